@@ -41,7 +41,7 @@ func TestVerifC43Dedup(t *testing.T) {
 
 func c43DedupSequentialLane(c *kit.Ctx, ra *ruleAcc) {
 	ra.add("sequential", "sequential histories of CheckIncomingMessage on filters with 2..8 buckets of 1..512 entries (incl. the production 5x512): fresh messages, repeats at PRNG-chosen distances from 0 to beyond the retention window (clustered around (buckets-1)*bucketSize), the same payload under the other dedup-safe tag, payloads that are prefixes/extensions of each other, pure lookups (add=false) and non-promoting checks; the reference is a map from (tag,payload) to the call index of its last refresh. distinct = (buckets, bucketSize, distance class, flags, result)")
-	ncases := c.N(300, 5000)
+	ncases := c.N(300, 10000)
 	type shape struct{ b, s int }
 	shapes := []shape{{5, 512}, {2, 1}, {2, 2}, {2, 3}, {3, 1}, {3, 2}, {3, 8}, {5, 4}, {8, 3}, {4, 64}, {3, 128}, {2, 512}}
 	for i := 0; i < ncases && c.Violations() < 20; i++ {
@@ -233,7 +233,7 @@ var c43SetModel = porcupine.Model{
 
 func c43DedupConcurrentLane(c *kit.Ctx, ra *ruleAcc) {
 	ra.add("concurrent", "k=2..16 goroutines call CheckIncomingMessage concurrently on one filter (production 5x512 and smaller shapes) with overlapping PRNG-chosen subsets of a small message pool (AV/TX tags; some pure lookups); the total number of inserting calls stays below (buckets-1)*bucketSize so nothing may be forgotten; call and return are stamped from one atomic counter and the history is checked with porcupine against a per-message set model (exactly one 'new' per message). distinct = (shape, goroutines, calls on a message, concurrent overlap seen)")
-	ncases := c.N(60, 1500)
+	ncases := c.N(60, 3000)
 	type shape struct{ b, s int }
 	shapes := []shape{{5, 512}, {5, 512}, {3, 64}, {2, 200}, {8, 40}}
 	for i := 0; i < ncases && c.Violations() < 20; i++ {
